@@ -216,10 +216,12 @@ Theorem C13_inherit_live : forall c a M Ls sp p,
 Proof. exact slide_eff_unset. Qed.
 Print Assumptions C13_inherit_live.
 
-(** after a successful set the shape reports its own value; the dimensions of the other
+(** ELEMENT-LEVEL assignment [set_attr] (BaseShapeElement x / y / cx / cy).  It is the whole setter of
+    shapes that are not placeholders and of master and notes-master placeholders (MasterPlaceholder),
+    see C13_step_set_masters, and the building block of the placeholder setter [set_dim] below.
+    After a successful set the shape reports its own value; the dimensions of the other
     pair are untouched; the partner of the same pair (top for left, ...) becomes an own value
-    too: its previous own value, or 0 when the a:off / a:ext had to be created (unchanged by the
-    repo fix that validates before adding: only REFUSED values stopped leaving zeros) *)
+    too: its previous own value, or 0 when the a:off / a:ext had to be created *)
 Theorem C13_set_own : forall c a v M Ls s s',
   set_attr a v s = (s', Ok tt) ->
   slide_eff c a M Ls s' = Ok (Some v) /\ s_ph s' = s_ph s /\ s_name s' = s_name s /\
@@ -256,8 +258,9 @@ Example C13_set_example :
 Proof. vm_compute. repeat split; reflexivity. Qed.
 
 (** regression (repo fix: a refused left / top / width / height made an inheriting shape read 0):
-    after a refused width the placeholder of a new slide still reports the inherited width, and a
-    later accepted left seeds only its own pair *)
+    after a refused width and a refused top the placeholder of a new slide has no a:off / a:ext
+    and still reports the inherited width and top (the assignments go through [set_dim]: the
+    inherited lookups succeed, then the value is refused before anything is written) *)
 Example C13_set_rejected_regression :
   let d := final gen_cfg ex_deck [AddSlide 0; Edit (TSlide 1 1) (ESet AWidth (-1)%Z); Edit (TSlide 1 1) (ESet ATop (2 ^ 70)%Z)] in
   exists s sp, nth_error (d_slides d) 1 = Some s /\ nth_error (sl_shapes s) 1 = Some sp /\
@@ -265,6 +268,287 @@ Example C13_set_rejected_regression :
     slide_geom gen_cfg d s AWidth sp = Ok (Some 13%Z) /\ slide_geom gen_cfg d s ATop sp = Ok (Some 12%Z) /\
     snd (run_ops gen_cfg ex_deck [AddSlide 0; Edit (TSlide 1 1) (ESet AWidth (-1)%Z)]) = [Ok tt; Err ValueErr].
 Proof. do 2 eexists. vm_compute. repeat split; reflexivity. Qed.
+
+(** ** assignment to a placeholder that inherits: _InheritsDimensions._set_dimension = [set_dim]
+       (repo fix: the first position or size assigned to a placeholder zeroed the other three).
+       [inh] is the proxy's _inherited_value; [eff_with inh] what it reports. *)
+
+(** which setter each tree uses: slide, notes-slide and layout shapes with p:ph go through
+    [set_dim] with their own inherited-value function, everything else is the element setter *)
+Theorem C13_step_set_slide : forall c d s i a v sl sh,
+  nth_error (d_slides d) s = Some sl -> nth_error (sl_shapes sl) i = Some sh ->
+  step c d (Edit (TSlide s i) (ESet a v)) =
+  let '(sh', r) :=
+    if is_ph sh
+    then set_dim (fun b => slide_inh c b (master_tree d (sl_layout sl)) (layout_tree d (sl_layout sl)) sh) a v sh
+    else set_attr a v sh in
+  (set_slides d (upd_nth s (fun x => mk_slide (sl_layout x) (upd_nth i (fun _ => sh') (sl_shapes sl)) (sl_notes x))
+                         (d_slides d)), r).
+Proof. exact step_set_slide. Qed.
+Print Assumptions C13_step_set_slide.
+
+Theorem C13_step_set_notes : forall c d s i a v sl nt sh,
+  nth_error (d_slides d) s = Some sl -> sl_notes sl = Some nt -> nth_error nt i = Some sh ->
+  step c d (Edit (TNotes s i) (ESet a v)) =
+  let '(sh', r) :=
+    if is_ph sh then set_dim (fun b => Ok (notes_inh b (the_notes_master d) sh)) a v sh else set_attr a v sh in
+  (set_slides d (upd_nth s (fun x => mk_slide (sl_layout x) (sl_shapes x) (Some (upd_nth i (fun _ => sh') nt)))
+                         (d_slides d)), r).
+Proof. exact step_set_notes. Qed.
+Print Assumptions C13_step_set_notes.
+
+Theorem C13_step_set_layout : forall c d l i a v L sh,
+  nth_error (d_layouts d) l = Some L -> nth_error (l_shapes L) i = Some sh ->
+  step c d (Edit (TLayout l i) (ESet a v)) =
+  let '(sh', r) :=
+    if is_ph sh then set_dim (fun b => layout_inh c b (nth (l_master L) (d_masters d) []) sh) a v sh
+    else set_attr a v sh in
+  (set_layouts d (upd_nth l (fun x => mk_layout (l_master x) (upd_nth i (fun _ => sh') (l_shapes L))) (d_layouts d)), r).
+Proof. exact step_set_layout. Qed.
+Print Assumptions C13_step_set_layout.
+
+Theorem C13_step_set_masters : forall c d a v,
+  (forall m i M sh, nth_error (d_masters d) m = Some M -> nth_error M i = Some sh ->
+     step c d (Edit (TMaster m i) (ESet a v)) =
+     (set_masters d (upd_nth m (fun _ => upd_nth i (fun _ => fst (set_attr a v sh)) M) (d_masters d)),
+      snd (set_attr a v sh))) /\
+  (forall i sh, nth_error (the_notes_master d) i = Some sh ->
+     step c d (Edit (TNotesMaster i) (ESet a v)) =
+     (set_notes_master (ensure_notes_master d)
+        (Some (upd_nth i (fun _ => fst (set_attr a v sh)) (the_notes_master d))),
+      snd (set_attr a v sh))).
+Proof. exact step_set_masters. Qed.
+Print Assumptions C13_step_set_masters.
+
+(** the exact guard: the assignment goes through iff the value is in range and, for every OTHER
+    dimension without own value, the inherited lookup does not raise and yields None or a value
+    in range *)
+Theorem C13_set_dim_accepted_iff : forall inh a v s,
+  (exists s', set_dim inh a v s = (s', Ok tt)) <-> dim_guard inh a v s.
+Proof. exact set_dim_ok_iff. Qed.
+Print Assumptions C13_set_dim_accepted_iff.
+
+(** the whole state after an accepted assignment: the assigned dimension holds v; p:ph, id, name
+    and txBody are untouched; every other dimension keeps its own value, else takes the inherited
+    value, else (nothing inherited) becomes an own 0 exactly when its partner was written (the
+    a:off / a:ext had to be created) and stays absent otherwise *)
+Theorem C13_set_dim_state : forall inh a v s s',
+  set_dim inh a v s = (s', Ok tt) ->
+  dim_guard inh a v s /\ own a s' = Some v /\
+  s_ph s' = s_ph s /\ s_id s' = s_id s /\ s_name s' = s_name s /\ s_txbody s' = s_txbody s /\
+  (forall b, b <> a ->
+     own b s' =
+     match own b s with
+     | Some x => Some x
+     | None =>
+         match inh b with
+         | Ok (Some w) => Some w
+         | _ => if attr_eqb (partner b) a then Some 0%Z
+                else match inh (partner b) with Ok (Some _) => Some 0%Z | _ => None end
+         end
+     end).
+Proof. exact set_dim_ok. Qed.
+Print Assumptions C13_set_dim_state.
+
+(** the same in terms of what the placeholder REPORTS: the assigned dimension reports v; none of
+    the others was raising; each of the others that reported a value reports exactly that value;
+    one that reported None (nothing to inherit) reports 0 exactly when its partner is the assigned
+    dimension or reported a value, None otherwise *)
+Theorem C13_set_dim_eff : forall inh a v s s',
+  set_dim inh a v s = (s', Ok tt) ->
+  eff_with inh a s' = Ok (Some v) /\
+  (forall b, b <> a -> exists w, eff_with inh b s = Ok w) /\
+  (forall b x, b <> a -> eff_with inh b s = Ok (Some x) -> eff_with inh b s' = Ok (Some x)) /\
+  (forall b, b <> a -> eff_with inh b s = Ok None ->
+     eff_with inh b s' =
+     Ok (if attr_eqb (partner b) a then Some 0%Z
+         else match eff_with inh (partner b) s with Ok (Some _) => Some 0%Z | _ => None end)).
+Proof. exact set_dim_eff. Qed.
+Print Assumptions C13_set_dim_eff.
+
+(** every failure: (1) an inherited lookup raises - that exception, nothing written, whatever the
+    value; (2) the value is refused - ValueError, nothing written; (3) an inherited value is refused
+    by the element setter - ValueError, and the state is the one after the assigned dimension and
+    the inherited values that precede the refused one in dict order were written *)
+Theorem C13_set_dim_err : forall inh a v s s' e,
+  set_dim inh a v s = (s', Err e) ->
+  (s' = s /\ exists b, b <> a /\ own b s = None /\ inh b = Err e) \/
+  (s' = s /\ e = ValueErr /\ coord_ok a v = false /\
+   forall b, b <> a -> own b s = None -> exists w, inh b = Ok w) \/
+  (e = ValueErr /\ coord_ok a v = true /\
+   exists pre b w post,
+     collect_inh inh a s dim_order = Ok (pre ++ (b, Some w) :: post) /\
+     b <> a /\ own b s = None /\ inh b = Ok (Some w) /\ coord_ok b w = false /\
+     apply_inh pre (put a v s) = (s', Ok tt) /\ own a s' = Some v /\
+     s_ph s' = s_ph s /\ s_id s' = s_id s /\ s_name s' = s_name s /\ s_txbody s' = s_txbody s).
+Proof. exact set_dim_err. Qed.
+Print Assumptions C13_set_dim_err.
+
+Theorem C13_set_dim_lookup_raises : forall inh a v s b e,
+  b <> a -> own b s = None -> inh b = Err e ->
+  exists b' e', set_dim inh a v s = (s, Err e') /\ b' <> a /\ own b' s = None /\ inh b' = Err e'.
+Proof. exact set_dim_lookup_raises. Qed.
+Print Assumptions C13_set_dim_lookup_raises.
+
+Theorem C13_set_dim_refused : forall inh a v s,
+  coord_ok a v = false ->
+  (forall b, b <> a -> own b s = None -> exists w, inh b = Ok w) ->
+  set_dim inh a v s = (s, Err ValueErr).
+Proof. exact set_dim_refused. Qed.
+Print Assumptions C13_set_dim_refused.
+
+(** the three proxies.  Slide placeholder (inherits the EFFECTIVE value of the first layout
+    placeholder with its idx): *)
+Theorem C13_slide_set_keeps : forall c M L a v s s',
+  set_dim (fun b => slide_inh c b M L s) a v s = (s', Ok tt) ->
+  slide_eff c a M L s' = Ok (Some v) /\
+  s_ph s' = s_ph s /\ s_id s' = s_id s /\ s_name s' = s_name s /\ s_txbody s' = s_txbody s /\
+  (forall b, b <> a -> exists w, slide_eff c b M L s = Ok w) /\
+  (forall b x, b <> a -> slide_eff c b M L s = Ok (Some x) -> slide_eff c b M L s' = Ok (Some x)) /\
+  (forall b, b <> a -> slide_eff c b M L s = Ok None ->
+     slide_eff c b M L s' =
+     Ok (if attr_eqb (partner b) a then Some 0%Z
+         else match slide_eff c (partner b) M L s with Ok (Some _) => Some 0%Z | _ => None end)).
+Proof. exact slide_set_keeps. Qed.
+Print Assumptions C13_slide_set_keeps.
+
+(** layout placeholder (inherits the own value of the master placeholder of the mapped type): *)
+Theorem C13_layout_set_keeps : forall c M a v s s',
+  set_dim (fun b => layout_inh c b M s) a v s = (s', Ok tt) ->
+  layout_eff c a M s' = Ok (Some v) /\
+  s_ph s' = s_ph s /\ s_id s' = s_id s /\ s_name s' = s_name s /\ s_txbody s' = s_txbody s /\
+  (forall b, b <> a -> exists w, layout_eff c b M s = Ok w) /\
+  (forall b x, b <> a -> layout_eff c b M s = Ok (Some x) -> layout_eff c b M s' = Ok (Some x)) /\
+  (forall b, b <> a -> layout_eff c b M s = Ok None ->
+     layout_eff c b M s' =
+     Ok (if attr_eqb (partner b) a then Some 0%Z
+         else match layout_eff c (partner b) M s with Ok (Some _) => Some 0%Z | _ => None end)).
+Proof. exact layout_set_keeps. Qed.
+Print Assumptions C13_layout_set_keeps.
+
+(** notes-slide placeholder (inherits the own value of the first notes-master placeholder of its
+    type; that lookup never raises): *)
+Theorem C13_notes_set_keeps : forall NM a v s s',
+  set_dim (fun b => Ok (notes_inh b NM s)) a v s = (s', Ok tt) ->
+  notes_eff a NM s' = Some v /\
+  s_ph s' = s_ph s /\ s_id s' = s_id s /\ s_name s' = s_name s /\ s_txbody s' = s_txbody s /\
+  (forall b x, b <> a -> notes_eff b NM s = Some x -> notes_eff b NM s' = Some x) /\
+  (forall b, b <> a -> notes_eff b NM s = None ->
+     notes_eff b NM s' =
+     if attr_eqb (partner b) a then Some 0%Z
+     else match notes_eff (partner b) NM s with Some _ => Some 0%Z | None => None end).
+Proof. exact notes_set_keeps. Qed.
+Print Assumptions C13_notes_set_keeps.
+
+(** deck level: an accepted assignment to a placeholder of a slide changes what that one shape
+    reports for that one dimension; its other dimensions report what they reported, its p:ph, id,
+    name and txBody, the other shapes of the slide, the other slides, the layouts, the masters,
+    the notes master and the orphans are what they were *)
+Theorem C13_step_set_slide_geom : forall c d s i a v sl sh d',
+  nth_error (d_slides d) s = Some sl -> nth_error (sl_shapes sl) i = Some sh -> is_ph sh = true ->
+  step c d (Edit (TSlide s i) (ESet a v)) = (d', Ok tt) ->
+  exists sl' sh',
+    nth_error (d_slides d') s = Some sl' /\ nth_error (sl_shapes sl') i = Some sh' /\
+    sl_layout sl' = sl_layout sl /\ sl_notes sl' = sl_notes sl /\
+    length (sl_shapes sl') = length (sl_shapes sl) /\
+    (forall j, j <> i -> nth_error (sl_shapes sl') j = nth_error (sl_shapes sl) j) /\
+    length (d_slides d') = length (d_slides d) /\
+    (forall t, t <> s -> nth_error (d_slides d') t = nth_error (d_slides d) t) /\
+    d_layouts d' = d_layouts d /\ d_masters d' = d_masters d /\
+    d_notes_master d' = d_notes_master d /\ d_orphans d' = d_orphans d /\
+    s_ph sh' = s_ph sh /\ s_id sh' = s_id sh /\ s_name sh' = s_name sh /\ s_txbody sh' = s_txbody sh /\
+    slide_geom c d' sl' a sh' = Ok (Some v) /\
+    (forall b, b <> a -> exists w, slide_geom c d sl b sh = Ok w) /\
+    (forall b x, b <> a -> slide_geom c d sl b sh = Ok (Some x) -> slide_geom c d' sl' b sh' = Ok (Some x)).
+Proof. exact step_set_slide_geom. Qed.
+Print Assumptions C13_step_set_slide_geom.
+
+(** a refused value, or an inherited lookup that raises, leaves the whole deck exactly as it was *)
+Theorem C13_step_set_slide_unchanged : forall c d s i a v sl sh,
+  nth_error (d_slides d) s = Some sl -> nth_error (sl_shapes sl) i = Some sh -> is_ph sh = true ->
+  coord_ok a v = false \/
+  (exists b e, b <> a /\ own b sh = None /\
+     slide_inh c b (master_tree d (sl_layout sl)) (layout_tree d (sl_layout sl)) sh = Err e) ->
+  exists e, step c d (Edit (TSlide s i) (ESet a v)) = (d, Err e).
+Proof. exact step_set_slide_unchanged. Qed.
+Print Assumptions C13_step_set_slide_unchanged.
+
+(** non-vacuity of the guard: a body placeholder with nothing of its own on a slide whose layout
+    is ex_layout (counterpart with idx 1: empty) over a master whose body sits at 11 12 13 14;
+    every assignment of an in-range value is accepted *)
+Example C13_dim_guard_example :
+  let sh := mk_shape 3%N [] (Some (mk_ph (Some 2%N) (Some 1%N) (Some 1%N) (Some 1%N))) None None true in
+  let inh := fun b => slide_inh gen_cfg b (master_tree ex_deck 0) (layout_tree ex_deck 0) sh in
+  dim_guard inh ALeft 5%Z sh /\ dim_guard inh AHeight 0%Z sh /\
+  (exists s', set_dim inh ALeft 5%Z sh = (s', Ok tt)) /\ ~ dim_guard inh AWidth (-1)%Z sh.
+Proof.
+  assert (G : forall a v, coord_ok a v = true ->
+    dim_guard (fun b => slide_inh gen_cfg b (master_tree ex_deck 0) (layout_tree ex_deck 0)
+                 (mk_shape 3%N [] (Some (mk_ph (Some 2%N) (Some 1%N) (Some 1%N) (Some 1%N))) None None true)) a v
+              (mk_shape 3%N [] (Some (mk_ph (Some 2%N) (Some 1%N) (Some 1%N) (Some 1%N))) None None true)).
+  { intros a v Hv. split; [exact Hv|]. intros b _ _.
+    destruct b; (eexists; split; [vm_compute; reflexivity|intros x Hx; inversion Hx; reflexivity]). }
+  cbv zeta. split; [apply G; reflexivity|]. split; [apply G; reflexivity|].
+  split; [apply set_dim_accepts; apply G; reflexivity|].
+  intros [H _]. vm_compute in H. discriminate H.
+Qed.
+
+(** regression of the repo fix: the body placeholder of a slide added to ex_deck reports the
+    master body's 11 12 13 14; its first assignment (left = 5) is accepted and top, width and
+    height keep reporting 12, 13, 14 (now as own values) - before the fix they read 0, None, None *)
+Example C13_set_dim_fix_regression :
+  reported gen_cfg (final gen_cfg ex_deck [AddSlide 0]) 1 1 =
+    Some (None, None, [Ok (Some 11); Ok (Some 12); Ok (Some 13); Ok (Some 14)])%Z /\
+  snd (run_ops gen_cfg ex_deck [AddSlide 0; Edit (TSlide 1 1) (ESet ALeft 5%Z)]) = [Ok tt; Ok tt] /\
+  reported gen_cfg (final gen_cfg ex_deck [AddSlide 0; Edit (TSlide 1 1) (ESet ALeft 5%Z)]) 1 1 =
+    Some (Some (5, 12), Some (13, 14), [Ok (Some 5); Ok (Some 12); Ok (Some 13); Ok (Some 14)])%Z.
+Proof. vm_compute. repeat split; reflexivity. Qed.
+
+(** nothing to inherit (master title with a position but no size, layout title empty): after
+    height = 9 the partner width reports an own 0, left and top keep reporting the master's 10 20;
+    a later top = 7 on the LAYOUT placeholder (same setter, inheriting from the master) keeps its
+    left at the master's 10 and leaves width and height absent *)
+Example C13_set_dim_none_example :
+  let ops := [AddSlide 0; Edit (TSlide 0 0) (ESet AHeight 9%Z); Edit (TLayout 0 0) (ESet ATop 7%Z)] in
+  reported gen_cfg (final gen_cfg half_deck [AddSlide 0]) 0 0 =
+    Some (None, None, [Ok (Some 10); Ok (Some 20); Ok None; Ok None])%Z /\
+  reported gen_cfg (final gen_cfg half_deck ops) 0 0 =
+    Some (Some (10, 20), Some (0, 9), [Ok (Some 10); Ok (Some 20); Ok (Some 0); Ok (Some 9)])%Z /\
+  snd (run_ops gen_cfg half_deck ops) = [Ok tt; Ok tt; Ok tt] /\
+  map (fun L => map (fun sh => (s_off sh, s_ext sh)) (l_shapes L)) (d_layouts (final gen_cfg half_deck ops)) =
+    [[(Some (10, 7)%Z, None)]].
+Proof. vm_compute. repeat split; reflexivity. Qed.
+
+(** the lookups come before the validation: with a table that has no entry for the type (toy_cfg,
+    type 3) the out-of-range width raises KeyError, not ValueError, and nothing is written *)
+Example C13_set_dim_lookup_first_example :
+  let ops := [AddSlide 0; Edit (TSlide 0 0) (ESet AWidth (-1)%Z)] in
+  snd (run_ops toy_cfg (wit_deck 3) ops) = [Ok tt; Err KeyErr] /\
+  final toy_cfg (wit_deck 3) ops = final toy_cfg (wit_deck 3) [AddSlide 0].
+Proof. vm_compute. split; reflexivity. Qed.
+
+(** third failure: the layout carries a negative width; left = 9 is written, the inherited top 2
+    is written, the inherited width is refused - ValueError, height is not written; all four
+    still report the layout's values except the assigned one *)
+Example C13_set_dim_partial_example :
+  let ops := [AddSlide 0; Edit (TSlide 0 0) (ESet ALeft 9%Z)] in
+  snd (run_ops gen_cfg neg_deck ops) = [Ok tt; Err ValueErr] /\
+  reported gen_cfg (final gen_cfg neg_deck ops) 0 0 =
+    Some (Some (9, 2), None, [Ok (Some 9); Ok (Some 2); Ok (Some (-5)); Ok (Some 7)])%Z.
+Proof. vm_compute. split; reflexivity. Qed.
+
+(** a notes-slide placeholder keeps the notes master's position and width when its height is set;
+    a MASTER placeholder has the plain setter: its first left makes top an own 0 *)
+Example C13_set_dim_notes_master_example :
+  (let d := final gen_cfg ex_deck [NotesSlide 0; Edit (TNotes 0 1) (ESet AHeight 42%Z)] in
+   exists sl nt sh, nth_error (d_slides d) 0 = Some sl /\ sl_notes sl = Some nt /\ nth_error nt 1 = Some sh /\
+     s_off sh = Some (685800, 4343400)%Z /\ s_ext sh = Some (5486400, 42)%Z /\
+     map (fun a => notes_eff a (the_notes_master d) sh) [ALeft; ATop; AWidth; AHeight] =
+       [Some 685800; Some 4343400; Some 5486400; Some 42]%Z) /\
+  map (map (fun sh => (s_off sh, s_ext sh)))
+      (d_masters (final gen_cfg ex_deck [Edit (TMaster 0 0) EClear; Edit (TMaster 0 0) (ESet ALeft 3%Z)])) =
+    [[(Some (3, 0)%Z, None)]].
+Proof. split; [do 3 eexists|]; vm_compute; repeat split; reflexivity. Qed.
 
 (** ** the new slide is last, related to the layout; everything else is untouched *)
 Theorem C13_last_and_frame : forall c d l d' r,
